@@ -201,6 +201,40 @@ func (pe *permEnv) deregister(ctx sdk.Context, denom string) {
 	}
 }
 
+func cloneEntry(en *trtypes.RegistryEntry) *trtypes.RegistryEntry {
+	c := *en
+	c.Permissions = append([]trtypes.Permission(nil), en.Permissions...)
+	return &c
+}
+
+// edit runs one registry message of the real tokenregistry server on ctx and emits its lines.  The
+// operation line is rendered from the message BEFORE the handler sees it (and the handler gets its
+// own copy): what is compared and judged is the message as sent, not as a handler may have rewritten
+// it.  `chk c12.regstored`: the registry as stored afterwards (raw KV bytes) is exactly the edit
+// applied to the registry as stored before.
+func (pe *permEnv) edit(ctx sdk.Context, out *Out, where, kind string, en *trtypes.RegistryEntry, denom string, entries []*trtypes.RegistryEntry) {
+	before := pe.storedRegistry(ctx)
+	arg := ""
+	switch kind {
+	case "register":
+		arg = entryDump(en)
+		pe.register(ctx, cloneEntry(en))
+	case "deregister":
+		arg = denom
+		pe.deregister(ctx, denom)
+	case "set":
+		arg = regDump(trtypes.Registry{Entries: entries})
+		cp := make([]*trtypes.RegistryEntry, len(entries))
+		for i, x := range entries {
+			cp[i] = cloneEntry(x)
+		}
+		pe.setRegistry(ctx, cp)
+	}
+	after := pe.storedRegistry(ctx)
+	out.Emit("reg "+kind+" "+arg, regCore(after), where+"reg."+kind, false)
+	out.Emit(fmt.Sprintf("chk c12.regstored tag=%s%s.stored %s %s %s %s", where, kind, regDump(before), kind, arg, regDump(after)), "true", "chk.regstored", false)
+}
+
 // storedRegistry decodes the registry straight from the tokenregistry KV store as seen through ctx,
 // bypassing the keeper's read path: this is "the registry as stored", what the judge decides on.
 func (pe *permEnv) storedRegistry(ctx sdk.Context) trtypes.Registry {
@@ -412,9 +446,6 @@ func init() {
 			}
 			return es
 		}
-		emitReg := func(ctx sdk.Context, line string) {
-			out.Emit(line, regCore(pe.storedRegistry(ctx)), "reg."+strings.Fields(line)[1], false)
-		}
 		// ---- L0: GetLiquidityAddSymmetryState on ratios around equality
 		for i := 0; i < 400+n/10; i++ {
 			X, Y := rng.Amount(80), rng.Amount(80)
@@ -469,8 +500,7 @@ func init() {
 							entries = append(entries, entryOf(t2, c2, ""))
 						}
 						out.Emit("reset", "ok", "reset", false)
-						pe.setRegistry(tctx, entries)
-						emitReg(tctx, "reg set "+regDump(trtypes.Registry{Entries: entries}))
+						pe.edit(tctx, out, "", "set", nil, "", entries)
 						pe.run(tctx, m, out)
 					}
 				}
@@ -510,8 +540,7 @@ func init() {
 				j := rng.Intn(i + 1)
 				entries[i], entries[j] = entries[j], entries[i]
 			}
-			pe.setRegistry(tctx, entries)
-			emitReg(tctx, "reg set "+regDump(trtypes.Registry{Entries: entries}))
+			pe.edit(tctx, out, "", "set", nil, "", entries)
 			rounds := 1 + rng.Intn(4)
 			for r := 0; r < rounds; r++ {
 				if r > 0 || rng.Chance(1, 2) {
@@ -526,11 +555,9 @@ func init() {
 							unit = all[rng.Intn(len(all))]
 						}
 						en := entryOf(tk, mask, unit)
-						pe.register(tctx, en)
-						emitReg(tctx, "reg register "+entryDump(en))
+						pe.edit(tctx, out, "", "register", en, "", nil)
 					} else {
-						pe.deregister(tctx, tk)
-						emitReg(tctx, "reg deregister "+tk)
+						pe.edit(tctx, out, "", "deregister", nil, tk, nil)
 					}
 				}
 				m := msgs[rng.Intn(len(msgs))]
@@ -605,8 +632,7 @@ func init() {
 				entries[0], entries[len(entries)-1] = entries[len(entries)-1], entries[0]
 			}
 			out.Emit("reset", "ok", "reset", false)
-			pe.setRegistry(tctx, entries)
-			emitReg(tctx, "reg set "+regDump(trtypes.Registry{Entries: entries}))
+			pe.edit(tctx, out, "", "set", nil, "", entries)
 			pe.run(tctx, m, out)
 		}
 		for _, hp := range []bool{true, false} {
@@ -646,6 +672,61 @@ func init() {
 			}
 			ghostTrial(g, hp, carrier, fieldSetters[rng.Intn(7)], mask, own, ms[rng.Intn(len(ms))])
 		}
+		// ---- re-registration of an ALREADY registered denom (how an admin revokes or changes permissions
+		// without deregistering): empty, shrunk, grown, identical permission lists, changed decimals and
+		// unit denom, followed AT ONCE by every gated message on that denom
+		reregMsgs := func(t string) []permMsg {
+			switch t {
+			case tokC:
+				return []permMsg{{kind: "createpool", route: "rereg", ext: t}, {kind: "transfer", route: "rereg", token: t, amount: 1000}}
+			case "rowan":
+				return []permMsg{{kind: "add", route: "rereg.sym", ext: tokA, r: pow10(18), a: pow10(18)},
+					{kind: "add", route: "rereg.sell", ext: tokA, r: pow10(18), a: sdk.ZeroUint()},
+					{kind: "add", route: "rereg.buy", ext: tokA, r: sdk.ZeroUint(), a: pow10(18)},
+					{kind: "swap", route: "rereg.r2e", sent: "rowan", received: tokA}, {kind: "swap", route: "rereg.e2r", sent: tokA, received: "rowan"},
+					{kind: "transfer", route: "rereg", token: t, amount: 1000}}
+			}
+			return []permMsg{{kind: "rm", route: "rereg", ext: t}, {kind: "rmu", route: "rereg", ext: t},
+				{kind: "add", route: "rereg.sym", ext: t, r: pow10(18), a: pow10(18)}, {kind: "add", route: "rereg.sell", ext: t, r: pow10(18), a: sdk.ZeroUint()},
+				{kind: "swap", route: "rereg.r2e", sent: "rowan", received: t}, {kind: "swap", route: "rereg.e2r", sent: t, received: "rowan"},
+				{kind: "swap", route: "rereg.e2e", sent: t, received: tokB}, {kind: "swap", route: "rereg.e2e.b", sent: tokB, received: t},
+				{kind: "transfer", route: "rereg", token: t, amount: 1000}}
+		}
+		type rereg struct {
+			name     string
+			old, new int // permission masks before / in the message
+			decimals int64
+			unit     string
+		}
+		reregs := []rereg{
+			{"empty", 1 | 2 | 4, 0, 18, ""}, {"empty.fromall", 31, 0, 18, ""}, {"empty.dec", 1 | 2 | 4, 0, 6, ""},
+			{"shrunk.noclp", 1 | 2 | 4, 2 | 4, 18, ""}, {"shrunk.noexport", 1 | 2 | 4, 1, 18, ""}, {"shrunk.nodisable", 1 | 8 | 16, 1, 18, ""},
+			{"grown.disable", 1 | 2, 1 | 2 | 8 | 16, 18, ""}, {"grown.fromnone", 0, 1 | 2 | 4, 18, ""}, {"grown.export", 1, 1 | 2, 18, ""},
+			{"identical", 1 | 2 | 4, 1 | 2 | 4, 18, ""}, {"identical.dec", 1 | 2 | 4, 1 | 2 | 4, 9, ""},
+			{"alias", 1 | 2 | 4, 1 | 2 | 4, 18, tokX}, {"alias.empty", 1 | 2 | 4, 0, 18, tokX},
+		}
+		for _, t := range []string{tokA, tokC, "rowan"} {
+			for _, rr := range reregs {
+				for _, m := range reregMsgs(t) {
+					tctx, _ := base.CacheContext()
+					entries := good(t)
+					entries = append(entries, entryOf(t, rr.old, ""))
+					if rng.Chance(1, 2) {
+						entries[0], entries[len(entries)-1] = entries[len(entries)-1], entries[0]
+					}
+					out.Emit("reset", "ok", "reset", false)
+					pe.edit(tctx, out, "", "set", nil, "", entries)
+					en := entryOf(t, rr.new, rr.unit)
+					en.Decimals = rr.decimals
+					if rr.new == 0 && rng.Chance(1, 2) {
+						en.Permissions = []trtypes.Permission{} // zero-length rather than nil
+					}
+					pe.edit(tctx, out, "rereg."+rr.name+".", "register", en, "", nil)
+					m.route = m.route + "." + rr.name
+					pe.run(tctx, m, out)
+				}
+			}
+		}
 		// ---- transaction histories (baseapp runMsgs discipline): a chain whose committed state evolves;
 		// every transaction runs ALL its messages on ONE branch, stops at the first failing message
 		// and is written back only if all succeeded and it is not a simulation.  Several transactions
@@ -657,7 +738,7 @@ func init() {
 			tk := toks5[rng.Intn(len(toks5))]
 			mask := rng.Intn(32)
 			if rng.Chance(1, 2) {
-				mask = []int{0, 1, 3, 1 | 8, 1 | 16, 2, 1 | 2 | 4}[rng.Intn(7)] // drop / grant exactly the permissions that matter
+				mask = []int{0, 0, 1, 3, 1 | 8, 1 | 16, 2, 1 | 2 | 4}[rng.Intn(8)] // drop / grant exactly the permissions that matter
 			}
 			unit := ""
 			if rng.Chance(1, 8) {
@@ -682,8 +763,7 @@ func init() {
 			cur := he.ctx
 			height := int64(10)
 			out.Emit("reset", "ok", "reset", false)
-			he.setRegistry(cur.WithBlockHeight(height), good())
-			out.Emit("reg set "+regDump(trtypes.Registry{Entries: good()}), regCore(he.storedRegistry(cur)), "reg.set", false)
+			he.edit(cur.WithBlockHeight(height), out, "", "set", nil, "", good())
 			pickMsg := func(ctx sdk.Context) (permMsg, bool) {
 				m := msgs[rng.Intn(len(msgs))]
 				if m.kind == "transfer" && rng.Chance(1, 3) {
@@ -754,18 +834,15 @@ func init() {
 					if it.edit != "" {
 						switch it.edit {
 						case "register":
-							he.register(bctx, it.entry)
-							out.Emit("reg register "+entryDump(it.entry), regCore(he.storedRegistry(bctx)), "tx.reg.register", false)
+							he.edit(bctx, out, "tx.", "register", it.entry, "", nil)
 						case "deregister":
-							he.deregister(bctx, it.denom)
-							out.Emit("reg deregister "+it.denom, regCore(he.storedRegistry(bctx)), "tx.reg.deregister", false)
+							he.edit(bctx, out, "tx.", "deregister", nil, it.denom, nil)
 						case "set":
 							var es []*trtypes.RegistryEntry
 							for k := 0; k < 3+rng.Intn(4); k++ {
 								es = append(es, randEntry())
 							}
-							he.setRegistry(bctx, es)
-							out.Emit("reg set "+regDump(trtypes.Registry{Entries: es}), regCore(he.storedRegistry(bctx)), "tx.reg.set", false)
+							he.edit(bctx, out, "tx.", "set", nil, "", es)
 						}
 						continue
 					}
